@@ -4,7 +4,7 @@
 For /tmp/seedout/<Cxx>/<n>/ (patch.diff, demo.py | demo.txt, meta.json) and the scratch worktree
 /tmp/seed/<Cxx>: demo on the clean worktree must end with HOLDS, the patch must apply, the demo on the
 patched worktree must end with VIOLATED, the pinned suite must show no regression.  On success the
-directory is copied to /verif/seeded/<Cxx>/<n>/ with a confirm.json.  Usage: seed_confirm.py Cxx [n ...] [--nosuite] [--round2]   (--round2: /tmp/seedout2/<Cxx>/<n> -> seeded/<Cxx>/r2-<n>)"""
+directory is copied to /verif/seeded/<Cxx>/<n>/ with a confirm.json.  Usage: seed_confirm.py Cxx [n ...] [--nosuite] [--round2 | --round3]   (--roundK: /tmp/seedoutK/<Cxx>/<n> -> seeded/<Cxx>/rK-<n>)"""
 import json
 import os
 import shutil
@@ -33,8 +33,9 @@ def main(argv):
     nosuite = '--nosuite' in argv
     ns = [a for a in argv[2:] if not a.startswith('--')]
     wt = '/tmp/seed/' + prop
-    r2 = '--round2' in argv
-    out = ('/tmp/seedout2/' if r2 else '/tmp/seedout/') + prop
+    rnd = '3' if '--round3' in argv else ('2' if '--round2' in argv else '')
+    r2 = bool(rnd)
+    out = '/tmp/seedout%s/%s' % (rnd, prop)
     if not ns:
         ns = sorted(d for d in os.listdir(out) if os.path.isdir(os.path.join(out, d)))
     for n in ns:
@@ -74,7 +75,7 @@ def main(argv):
         res['demo_kind'] = 'script' if has_demo else 'written argument'
         print(json.dumps(res))
         if ok:
-            dst = os.path.join(HERE, 'seeded', prop, ('r2-' + n) if r2 else n)
+            dst = os.path.join(HERE, 'seeded', prop, ('r%s-%s' % (rnd, n)) if r2 else n)
             os.makedirs(dst, exist_ok=True)
             for fn in os.listdir(d):
                 if fn in ('patch.diff', 'demo.py', 'demo.txt', 'meta.json'):
